@@ -167,8 +167,23 @@ where
     check_response_body(&http_response)?;
 
     let response_body = http_response.body().as_slice();
-    serde_path_to_error::deserialize(&mut serde_json::Deserializer::from_slice(response_body))
-        .map_err(|e| RequestTokenError::Parse(e, response_body.to_vec()))
+    deserialize_json(response_body).map_err(|e| RequestTokenError::Parse(e, response_body.to_vec()))
+}
+
+// Deserializes a complete JSON document, rejecting trailing non-whitespace bytes (as
+// `serde_json::from_slice` does) while keeping the path to any error.
+fn deserialize_json<T>(
+    body: &[u8],
+) -> Result<T, serde_path_to_error::Error<serde_json::error::Error>>
+where
+    T: DeserializeOwned,
+{
+    let mut deserializer = serde_json::Deserializer::from_slice(body);
+    let value = serde_path_to_error::deserialize(&mut deserializer)?;
+    deserializer.end().map_err(|err| {
+        serde_path_to_error::Error::new(serde_path_to_error::Track::new().path(), err)
+    })?;
+    Ok(value)
 }
 
 pub(crate) fn endpoint_response_status_only<RE, TE>(
@@ -195,9 +210,7 @@ where
                 "server returned empty error response".to_string(),
             ))
         } else {
-            let error = match serde_path_to_error::deserialize::<_, TE>(
-                &mut serde_json::Deserializer::from_slice(reason),
-            ) {
+            let error = match deserialize_json::<TE>(reason) {
                 Ok(error) => RequestTokenError::ServerResponse(error),
                 Err(error) => RequestTokenError::Parse(error, reason.to_vec()),
             };
